@@ -1052,6 +1052,19 @@ class Executor:
             return VBound(obj, name)
         if isinstance(obj, VNone):
             self.raise_py(AttributeError)
+        pycls = getattr(obj, 'pycls', None)
+        if isinstance(pycls, type):
+            # class-level data attribute of a builtin-subclass instance (e.g. Integer._lower_bound)
+            import inspect
+            try:
+                static = inspect.getattr_static(pycls, name)
+            except AttributeError:
+                static = None
+            if static is None and any(name in k.__dict__ for k in pycls.__mro__):
+                return NONE
+            if static is not None and not callable(static) and not isinstance(static, (classmethod, staticmethod, property)) \
+                    and not hasattr(static, '__get__'):
+                return lift_global(static)
         return VBound(obj, name)
 
     def e_Subscript(self, node, env):
